@@ -553,23 +553,53 @@ fn child_command(exe: &std::path::Path, file: &str, i: usize) -> std::process::C
     cmd
 }
 
+/// Upper bound for one child (a case takes about a second; the bound only guards against a hang).
+const CHILD_TIMEOUT_S: u64 = 180;
+
 fn collect_child(p: std::io::Result<std::process::Child>) -> Result<Observation, String> {
-    match p {
-        Err(e) => Err(format!("spawn: {e}")),
-        Ok(child) => match child.wait_with_output() {
-            Err(e) => Err(format!("wait: {e}")),
-            Ok(out) => {
-                if !out.status.success() {
-                    return Err(format!(
-                        "child exited {:?}: {}",
-                        out.status.code(),
-                        String::from_utf8_lossy(&out.stderr).chars().take(300).collect::<String>()
-                    ));
+    use std::io::Read as _;
+    let mut child = match p {
+        Err(e) => return Err(format!("spawn: {e}")),
+        Ok(c) => c,
+    };
+    let mut stdout = child.stdout.take().ok_or("no stdout")?;
+    let mut stderr = child.stderr.take().ok_or("no stderr")?;
+    let out_reader = std::thread::spawn(move || {
+        let mut buf = Vec::new();
+        let _ = stdout.read_to_end(&mut buf);
+        buf
+    });
+    let err_reader = std::thread::spawn(move || {
+        let mut buf = Vec::new();
+        let _ = stderr.read_to_end(&mut buf);
+        buf
+    });
+    let deadline = std::time::Instant::now() + std::time::Duration::from_secs(CHILD_TIMEOUT_S);
+    let status = loop {
+        match child.try_wait() {
+            Ok(Some(st)) => break Ok(st),
+            Ok(None) => {
+                if std::time::Instant::now() >= deadline {
+                    let _ = child.kill();
+                    let _ = child.wait();
+                    break Err(format!("child did not finish within {CHILD_TIMEOUT_S} s (killed)"));
                 }
-                parse_child_output(&String::from_utf8_lossy(&out.stdout))
+                std::thread::sleep(std::time::Duration::from_millis(3));
             }
-        },
+            Err(e) => break Err(format!("wait: {e}")),
+        }
+    };
+    let out = out_reader.join().unwrap_or_default();
+    let err = err_reader.join().unwrap_or_default();
+    let status = status?;
+    if !status.success() {
+        return Err(format!(
+            "child exited {:?}: {}",
+            status.code(),
+            String::from_utf8_lossy(&err).chars().take(300).collect::<String>()
+        ));
     }
+    parse_child_output(&String::from_utf8_lossy(&out))
 }
 
 fn spawn_children(exe: &std::path::Path, file: &str, k: usize) -> Vec<Result<Observation, String>> {
@@ -772,6 +802,7 @@ pub fn run(args: &Args) -> i32 {
         return 3;
     }
     let mut out = Out::new();
+    let started = std::time::Instant::now();
     if args.extra.contains_key("dump-sources") {
         for n in args.case_numbers() {
             let mut rng = Rng::for_case(args.seed, n);
@@ -793,6 +824,7 @@ pub fn run(args: &Args) -> i32 {
         out.count("cases");
     }
     let _ = std::fs::remove_dir_all(&tmp_dir);
+    out.add("harness_wall_ms", started.elapsed().as_millis() as u64);
     out.finish(&args.out);
     0
 }
